@@ -64,7 +64,7 @@ def ask_all(req):
 
 @st.composite
 def cases(draw, tier):
-    k = draw(st.integers(0, 6))
+    k = draw(st.integers(0, 7))
     if k == 0:
         # many waiters on *different* comparison objects of one tracked value, one setter;
         # and several borrowers waiting on one supply (each creates its own comparison)
@@ -130,6 +130,31 @@ def cases(draw, tier):
         prog = {'start': draw(st.sampled_from([0, -3])), 'objs': {}, 'roots': acts}
         if draw(st.booleans()):
             prog['till'] = draw(st.sampled_from([12, 20, 7.5]))
+        return {'prog': prog, 'junk': draw(st.integers(0, 10000))}
+    if k == 4:
+        # condition *objects* shared between activities: a connective over several date/flag/comparison
+        # objects, whose parts are also awaited individually by other activities
+        n = draw(st.integers(2, 5))
+        d = draw(st.sampled_from([1, 2, 3]))
+        conds = []
+        for i in range(n):
+            kind = draw(st.sampled_from(['time_ge', 'time_ge', 'time_eq', 'flag', 'tcmp']))
+            conds.append([kind, d] if kind.startswith('time') else (['flag', 0] if kind == 'flag' else ['tcmp', 0, '>=', 1]))
+        expr = ['named', 0]
+        for i in range(1, n):
+            expr = [draw(st.sampled_from(['and', 'or'])), expr, ['named', i]]
+        acts = [{'name': 'c', 'steps': [{'op': 'await', 'e': expr}, {'op': 'mark', 'v': 'c'}]}]
+        if draw(st.booleans()):
+            acts.append({'name': 'u', 'steps': [{'op': 'until', 'name': 'U', 'notif': expr, 'children': [],
+                                                'body': [{'op': 'eternity'}]}, {'op': 'mark', 'v': 'u'}]})
+        for i in range(n):
+            for j in range(draw(st.integers(0, 2))):
+                acts.append({'name': 'w%d_%d' % (i, j), 'steps': [{'op': 'instant'} for _ in range(draw(st.integers(0, 2)))] +
+                             [{'op': 'await', 'e': ['named', i]}, {'op': 'mark', 'v': i}, {'op': 'tadd', 'i': 1, 'v': 1}]})
+        setter = {'name': 's', 'steps': [{'op': 'sleep', 'd': d}, {'op': 'set_flag', 'i': 0, 'v': True}, {'op': 'tset', 'i': 0, 'v': 2}]}
+        order = draw(st.permutations(list(range(len(acts)))))
+        prog = {'start': 0, 'objs': {'flags': 1, 'tracked': [0, 0], 'conds': conds},
+                'roots': [acts[0]] + [acts[j] for j in order if j != 0] + [setter]}
         return {'prog': prog, 'junk': draw(st.integers(0, 10000))}
     c = draw(whole_programs(tier))
     return {'prog': c['prog'], 'junk': draw(st.integers(0, 10000))}
